@@ -272,3 +272,6 @@ pub mod convert_probe;
 
 #[path = "ffidb_probe.rs"]
 pub mod ffidb_probe;
+
+#[path = "db_probe.rs"]
+pub mod db_probe;
